@@ -36,10 +36,19 @@ def Pat.wn : Pat → Bool
   | .ctor sp len ps =>
     decide (sp.lo + len ≤ sp.hi) && chain (sp.lo + len + 1) sp.hi (ps.map Pat.span) && wnList ps
   | .as_ sp _ p => sp.wf && decide (sp.lo ≤ p.span.lo) && decide (p.span.hi ≤ sp.hi) && p.wn
+  | .record sp fs => sp.wf && chain sp.lo sp.hi (fs.map Pat.span) && wnFields fs
+  -- fields occur only directly below a record pattern
+  | .fieldShort _ _ => false
+  | .fieldVal _ _ => false
 where
   wnList : List Pat → Bool
     | [] => true
     | p :: ps => p.wn && wnList ps
+  wnFields : List Pat → Bool
+    | [] => true
+    | .fieldShort nsp _ :: ps => nsp.wf && wnFields ps
+    | .fieldVal nsp v :: ps => nsp.wf && decide (nsp.hi < v.span.lo) && v.wn && wnFields ps
+    | _ :: _ => false
 
 mutual
 def Expr.wn : Expr → Bool
@@ -90,10 +99,25 @@ def Pat.spec (pos : Nat) : Pat → Option M
       (if isAt ⟨sp.lo, sp.lo + len⟩ pos then some ⟨.pattern, sp, .plain⟩ else specList ps)
     else none
   | .as_ sp _ p => if isAt sp pos then p.spec pos else none
+  | .record sp fs => if isAt sp pos then specFieldsP fs else none
+  | .fieldShort _ _ => none
+  | .fieldVal _ _ => none
 where
   specList : List Pat → Option M
     | [] => none
     | p :: ps => if isAt p.span pos then p.spec pos else specList ps
+  /-- the first field whose span (`name` or `name = pattern`) contains `pos`: its name, or what
+      is at `pos` inside its pattern -/
+  specFieldsP : List Pat → Option M
+    | [] => none
+    | .fieldShort nsp b :: ps =>
+      if isAt nsp pos then some ⟨.ident, nsp, .plain⟩ else specFieldsP ps
+    | .fieldVal nsp v :: ps =>
+      if isAt ⟨nsp.lo, v.span.hi⟩ pos then
+        (if isAt nsp pos then some ⟨.ident, nsp, .plain⟩
+         else if isAt v.span pos then v.spec pos else none)
+      else specFieldsP ps
+    | _ :: ps => specFieldsP ps
 
 /-- `o` if it says something, else `d` -/
 def orElse (o : Option (Option M)) (d : Option M) : Option M :=
